@@ -10,6 +10,7 @@ import functools
 import sys
 import types
 import warnings
+import weakref
 
 import stackscope
 from stackscope import extract, extract_since
@@ -646,6 +647,28 @@ def kwget(k=0):
     return S.dct
 
 
+class _Victim:
+    pass
+
+
+def dead_proxy():
+    v = _Victim()
+    return weakref.proxy(v)       # v dies on return: every look at the proxy raises ReferenceError
+
+
+class LazyObject:
+    """stands for the lazy proxies of web frameworks: asking for its class evaluates it - an event of the program"""
+
+    @property
+    def __class__(self):
+        S.events.append(("lazy_object_evaluated",))
+        return LazyObject
+
+
+def nameless_method(obj):
+    return types.MethodType(functools.partial(len), obj)      # its __func__ has no __name__
+
+
 def getdct():
     return S.dct
 
@@ -936,6 +959,8 @@ class R:
                 # a different object that compares equal to the manager, held in a local that comes early in f_locals
                 self.emit(1, "eqdecoy%d = MEq(%d)" % (it["m"], it["m"]))
         self.emit(1, "lpick = pick; lgetdct = getdct")
+        if self.p.get("odd_locals"):
+            self.emit(1, "oddl_dead = dead_proxy(); oddl_lazy = LazyObject(); oddl_meth = nameless_method(oddl_lazy)")
         self.emit(1, "ns = NS(); ns.getdct = getdct; ns.sub = NS(); ns.sub.slots = {}; dct = S.dct; key = 'kk'; lst = [0, 1, 2, 3]; "
                      "grid = [[0, 0], [0, 0]]")
         if any(str(it.get("target", "")).startswith("maybe_") for it in _all_items(self.p["body"])):
@@ -1107,7 +1132,8 @@ def compile_program(prog):
     fname = "<g1-prog>"
     linecache.cache[fname] = (len(src), None, src.splitlines(True), fname)
     ns = {"M": M, "AM": AM, "MAlias": MAlias, "AMAlias": AMAlias, "MDeco": MDeco, "AMDeco": AMDeco, "MDual": MDual, "AMDual": AMDual, "MEq": MEq, "AMEq": AMEq, "E1": E1, "E2": E2, "NS": NS, "trap": trap, "probe": probe, "cprobe": functools.partial(probe), "noop": noop,
-          "FR": S.fr, "sys": sys, "tick": tick, "S": S, "kwget": kwget, "pick": pick, "getdct": getdct, "GV": None,
+          "FR": S.fr, "sys": sys, "tick": tick, "S": S, "kwget": kwget, "pick": pick, "getdct": getdct, "dead_proxy": dead_proxy, "LazyObject": LazyObject,
+          "nameless_method": nameless_method, "GV": None,
           "__name__": "g1prog"}
     with warnings.catch_warnings():
         warnings.simplefilter("ignore")  # SyntaxWarning: 'return' in a 'finally' block etc.
